@@ -69,7 +69,7 @@ TWO_MC = [{"module": "MC_TwoLevel.tla", "cfg": "MC_TwoLevel_q.cfg", "only": "qui
 PROPS = {
     "C01": P(hunt=True, strict_ops=["logic", "consts"], mc=KMC(["logic"]), machine_ops=["logic"], rule="every syntactic form of NOT/AND/OR/XOR on structured and random operand pairs for n = 0..14; "
              "all pairs x forms for n <= 2 (n = 3 thorough); distinct = distinct (form, operands) content"),
-    "C02": P([], hunt=True, mc=KMC(["transforms", "text"]),
+    "C02": P([], hunt=True, profiles=["checked", "fast"], mc=KMC(["transforms", "text"]),
              machine_ops=["zero", "one", "parity", "majority", "nth_var", "threshold", "equals", "logic", "flip", "swap",
                           "swapadj", "fromcof", "setbit", "vnext"], rule="random call histories (30 calls) over constructors, parser, operators, transforms, cofactoring, mutators, "
              "canonization, successor; every produced table checked for well-formedness, ==/hash/cmp observations and "
